@@ -1038,6 +1038,21 @@ func (ex *Exec) evCall(x *SCall, env *Env) Val {
 			fnKey = env.fr.fn.String()
 		}
 		return TV(ex.heapIn(env, siteHeap(fnKey, sl.V, n), SortInt), intT)
+	case "lasterr":
+		// lasterr("callee", k): the error returned by the latest execution of the
+		// k-th call site of callee in the function under verification ("$1:callee"
+		// for a site inside its first closure); nil if it has not executed
+		sl, ok := x.Args[0].(*SStr)
+		kk, ok2 := x.Args[1].(*SInt)
+		if !ok || !ok2 || ex.top == nil {
+			specFail("lasterr(\"callee\", k)")
+		}
+		n, _ := strconv.Atoi(kk.V)
+		owner := ex.top.String()
+		if env.siteFn != "" {
+			owner = env.siteFn
+		}
+		return TV(ex.heapIn(env, siteErrHeap(owner, sl.V, n), SortIface), types.Universe.Lookup("error").Type())
 	case "structval":
 		// the struct value behind an immutable package-level pointer variable
 		v := arg(0)
